@@ -8,7 +8,7 @@ from ..cfg import NORMAL, Node, handler_classes
 from ..core import Ctx
 from ..flow import ALL, find_path, names_in
 from ..model import AnalysisError, FunctionInfo, dotted, norm_text
-from .common import (facts_at, judged_in_callers, walk_all, str_consts, owner_tops, nonnull_inline_return_edges, cleanup_in_reraising_handler, edge_target, guarded_names, handler_exits, handler_key, handler_nodes, in_handler, kwarg,
+from .common import (facts_at, pure_guard, judged_in_callers, walk_all, str_consts, owner_tops, nonnull_inline_return_edges, cleanup_in_reraising_handler, edge_target, guarded_names, handler_exits, handler_key, handler_nodes, in_handler, kwarg,
                      path_arg, reachable_from)
 
 EXPLANATION = (
@@ -166,6 +166,8 @@ def r1(ctx: Ctx, rid: str = "C14.R1", roots: Optional[List[FunctionInfo]] = None
                     reason = reason or SWALLOW_OK.get((ctx.prog.anchor(o), k[1]))
             if reason is None and cleanup_in_reraising_handler(ctx, f, hn):
                 reason = "best-effort cleanup nested in a handler that re-raises the original error on every path"
+            if reason is None and pure_guard(ctx, f, hn):
+                reason = "guards a pure computation (builtins only, value errors only): no storage / parse failure can be hidden"
             ctx.ob(rid, f, handler_key(ctx, f, hn), hn, reason is not None,
                    (f"allow-listed: {reason}" if reason else
                     f"a handler on the read path can complete normally: a storage/parse failure would yield a partial or "
